@@ -1507,6 +1507,11 @@ func randomRun(rq RandReq) (res Result) {
 				// a long statement whose k-th row is the invalid one, k anywhere: still nothing may change
 				n := 2 + rng.Intn(rq.LongBad)
 				k := rng.Intn(n)
+				if rng.Intn(2) == 0 {
+					// every other one close to the longest, the invalid row among its last ones
+					n = rq.LongBad - rng.Intn(1+rq.LongBad/8)
+					k = n - 1 - rng.Intn(1+n/16)
+				}
 				st.Rows = make([]int, n)
 				for j := range st.Rows {
 					st.Rows[j] = val()
